@@ -706,4 +706,43 @@ def initSkeleton : List (String × String) := [
 
 def initProg (g : Generator) (c : Cfg) (n : Nat) : P (Res × Nat × Nat) := runSteps g (initSteps c) n 0
 
+/-! ### interference by a concurrent peer initialiser
+
+Crossplane runs the same initialisation in several pods (core and rbac-manager init containers,
+replicas, the old and the new pod of a rolling update). Between two API calls of OUR run a peer may
+therefore have created or completed the TLS secrets. `PeerWrite`: right before our API call number
+`before`, the peer has written these secrets (whole objects; an existing secret of that name is
+replaced, i.e. its resourceVersion changes; a missing one is created). `peerEnv` turns a list of such
+writes into an `Xp.Env`; `runP` is the run under that interference and `run` is the special case of no
+peer (`Xp.runE_none`). `peerInit` is the peer we are most interested in: another initialiser that runs
+its own step list to completion right before our call `k0`. -/
+
+structure PeerWrite where
+  before : Nat
+  secrets : List Secret
+  deriving Repr, Inhabited
+
+def upsertSecret (s : Store) (x : Secret) : Store :=
+  match findSecret s x.name with
+  | some _ => { s with secrets := s.secrets.map fun y => if y.name = x.name then x else y }
+  | none => { s with secrets := s.secrets ++ [x] }
+
+def peerEnv (ws : List PeerWrite) : Env Store := fun k s =>
+  ws.foldl (fun s w => if w.before = k then w.secrets.foldl upsertSecret s else s) s
+
+/-- a peer that runs its own (fault-free, complete) initialisation right before our call `k0` -/
+def peerInit (g : Generator) (steps : List Step) (n k0 : Nat) : Env Store := fun k s =>
+  if k = k0 then (run sem Plan.allOk 0 (runSteps g steps n 0) s).1 else s
+
+/-- one run of the initializer under peer interference `env` and fault plan `plan` -/
+def runP (g : Generator) (steps : List Step) (env : Env Store) (plan : Plan) (n : Nat) (s : Store) :
+    Store × Option (Res × Nat × Nat) :=
+  runE sem env plan 0 (runSteps g steps n 0) s
+
+/-- the secret a request writes -/
+def Req.writes : Req → Option Secret
+  | .createSecret x => some x
+  | .updateSecret _ x => some x
+  | _ => none
+
 end Xp.C20
